@@ -1,6 +1,7 @@
 //! Batches of simulated runs: parallel execution, order-free aggregation, evidence, violation
 //! reports with minimised replay files.
 
+use crate::bytes::JPlan;
 use crate::gen::*;
 use crate::medium::*;
 use crate::oracle::*;
@@ -14,8 +15,41 @@ use std::time::Instant;
 pub const DEFAULT_SEED: u64 = 2026_1003;
 pub const PROPERTY: &str = "C20";
 
-const FAULT_KINDS: [&str; 8] =
-    ["W_ERR_TRANSIENT", "W_ERR_PERMANENT", "R_REORDER", "R_DROP", "R_UNKNOWN", "R_DUP", "R_ERR", "R_TRUNC"];
+const FAULT_KINDS: [&str; 17] = [
+    "W_ERR_TRANSIENT", "W_ERR_PERMANENT", "R_REORDER", "R_DROP", "R_UNKNOWN", "R_DUP", "R_ERR", "R_TRUNC",
+    "BYTES_W_SHORT", "BYTES_W_EINTR", "BYTES_W_IOERR_TRANSIENT", "BYTES_W_IOERR_PERMANENT", "BYTES_R_SHORT",
+    "BYTES_R_EINTR", "BYTES_R_IOERR", "BYTES_R_TRUNC", "BYTES_R_FLIP",
+];
+
+/// One run of either lane.
+#[derive(Clone, Debug, PartialEq, serde::Serialize, serde::Deserialize)]
+pub enum AnyPlan {
+    /// event-level medium (SimStore / SimSource)
+    Event(Plan),
+    /// byte-level medium (serde_json over FaultyWriter / FaultyReader)
+    Json(JPlan),
+}
+
+impl AnyPlan {
+    pub fn ty(&self) -> &str {
+        match self {
+            AnyPlan::Event(p) => &p.ty,
+            AnyPlan::Json(p) => &p.ty,
+        }
+    }
+    pub fn rfaults(&self) -> &[RFault] {
+        match self {
+            AnyPlan::Event(p) => &p.rfaults,
+            AnyPlan::Json(p) => &p.rfaults,
+        }
+    }
+    pub fn lane(&self) -> &'static str {
+        match self {
+            AnyPlan::Event(_) => "event",
+            AnyPlan::Json(_) => "json",
+        }
+    }
+}
 
 fn fault_index(name: &str) -> usize {
     FAULT_KINDS.iter().position(|x| *x == name).unwrap()
@@ -38,8 +72,9 @@ const P_W_NESTED: usize = 20;
 const P_RERR_BEFORE: usize = 21;
 const P_RERR_AFTER: usize = 22;
 const P_FRAMING_KEY: usize = 23; // 9
-const P_ASSERT: usize = 32; // 10
-const P_TYPE: usize = 42;
+const P_ASSERT: usize = 32; // 11
+const P_JSON: usize = 43; // reader x4, escaped keys
+const P_TYPE: usize = 48;
 
 const PERMS3: [[u8; 3]; 6] = [[0, 1, 2], [0, 2, 1], [1, 0, 2], [1, 2, 0], [2, 0, 1], [2, 1, 0]];
 
@@ -69,8 +104,17 @@ impl ProbeSpace {
         for a in ASSERT_IDS {
             names.push(format!("assertion_{}_evaluated", a));
         }
+        names.push("bytes_from_reader".into());
+        names.push("bytes_from_slice".into());
+        names.push("bytes_from_str".into());
+        names.push("bytes_from_bufreader".into());
+        names.push("bytes_escaped_keys".into());
+        assert_eq!(names.len(), P_TYPE);
         for e in reg {
             names.push(format!("fault_free_round_trip_{}", e.name));
+        }
+        for e in reg {
+            names.push(format!("bytes_fault_free_round_trip_{}", e.name));
         }
         ProbeSpace { names, n_types: reg.len() }
     }
@@ -84,7 +128,7 @@ impl ProbeSpace {
 #[derive(Clone)]
 struct FailRec {
     run: u64,
-    plan: Plan,
+    plan: AnyPlan,
     failure: Failure,
 }
 
@@ -109,6 +153,8 @@ struct Agg {
     harness_errors: Vec<(u64, String)>,
     per_family: BTreeMap<&'static str, u64>,
     hashes: Option<Vec<(u64, u64)>>,
+    lane_runs: [u64; 2],
+    format_lossy: u64,
 }
 
 impl Agg {
@@ -134,6 +180,8 @@ impl Agg {
             harness_errors: Vec::new(),
             per_family: BTreeMap::new(),
             hashes: if keep_hashes { Some(Vec::new()) } else { None },
+            lane_runs: [0; 2],
+            format_lossy: 0,
         }
     }
 
@@ -162,6 +210,9 @@ impl Agg {
         self.read_ok += o.read_ok;
         self.read_err += o.read_err;
         self.n_failures += o.n_failures;
+        self.lane_runs[0] += o.lane_runs[0];
+        self.lane_runs[1] += o.lane_runs[1];
+        self.format_lossy += o.format_lossy;
         for (k, v) in o.failures {
             match self.failures.get(k) {
                 Some(cur) if cur.run <= v.run => {}
@@ -181,8 +232,18 @@ impl Agg {
         }
     }
 
-    fn record(&mut self, run: u64, e: &TypeEntry, ti: usize, plan: &Plan, o: &Outcome) {
+    fn record(&mut self, run: u64, e: &TypeEntry, ti: usize, n_types: usize, plan: &AnyPlan, o: &Outcome) {
         self.runs += 1;
+        let is_json = matches!(plan, AnyPlan::Json(_));
+        self.lane_runs[is_json as usize] += 1;
+        let keyed = match plan {
+            AnyPlan::Event(p) => p.medium.keyed(),
+            AnyPlan::Json(_) => true,
+        };
+        let has_patch = match plan {
+            AnyPlan::Event(p) => p.patch.is_some(),
+            AnyPlan::Json(p) => p.patch.is_some(),
+        };
         *self.per_family.entry(e.family).or_insert(0) += 1;
         self.digest = self.digest.wrapping_add(mix64(run.wrapping_mul(0x9E37_79B9_7F4A_7C15) ^ o.log_hash));
         if let Some(h) = self.hashes.as_mut() {
@@ -213,8 +274,8 @@ impl Agg {
             self.fired[match f.kind {
                 WKind::Transient => 0,
                 WKind::Permanent => 1,
-            }] += 1;
-            if e.is_dec {
+            } + if is_json { 10 } else { 0 }] += 1;
+            if e.is_dec && !is_json {
                 use crate::store::WStep;
                 match (f.what, f.depth) {
                     (WStep::OpenStruct, 0) => self.probes[P_W_OPEN] += 1,
@@ -229,7 +290,7 @@ impl Agg {
                 break;
             }
         }
-        for (i, f) in plan.rfaults.iter().enumerate() {
+        for (i, f) in plan.rfaults().iter().enumerate() {
             if o.applied.get(i).copied().unwrap_or(false) {
                 nf += 1;
                 self.fired[fault_index(f.kind_name())] += 1;
@@ -244,7 +305,7 @@ impl Agg {
             seen_perm |= f.permanent;
             nf += 1;
             self.fired[if f.permanent { 7 } else { 6 }] += 1;
-            if e.is_dec && plan.medium.keyed() {
+            if e.is_dec && keyed {
                 if f.top_done & all3 != all3 {
                     self.probes[P_RERR_BEFORE] += 1;
                 } else {
@@ -252,10 +313,32 @@ impl Agg {
                 }
             }
         }
+        if is_json {
+            let j = &o.jstats;
+            self.fired[8] += j.w_short as u64;
+            self.fired[9] += j.w_eintr as u64;
+            self.fired[12] += j.r_short as u64;
+            self.fired[13] += j.r_eintr as u64;
+            self.fired[14] += j.r_ioerr as u64;
+            self.fired[15] += j.trunc as u64;
+            self.fired[16] += j.flip as u64;
+            nf += (j.r_ioerr + j.trunc + j.flip) as usize;
+            if j.format_lossy {
+                self.format_lossy += 1;
+            }
+            if o.read_ok.is_some() {
+                self.probes[P_JSON + j.reader as usize] += 1;
+                if j.escaped_keys {
+                    self.probes[P_JSON + 4] += 1;
+                }
+            }
+        }
         self.runs_with_fault[nf.min(3)] += 1;
-        self.probes[P_FRAMING_KEY + (plan.medium.framing as usize) * 3 + plan.medium.key_form as usize] += 1;
+        if let AnyPlan::Event(p) = plan {
+            self.probes[P_FRAMING_KEY + (p.medium.framing as usize) * 3 + p.medium.key_form as usize] += 1;
+        }
 
-        if e.is_dec && plan.medium.keyed() && o.rfired.is_empty() && o.read_ok.is_some() {
+        if e.is_dec && keyed && o.rfired.is_empty() && o.read_ok.is_some() && o.jstats.r_ioerr + o.jstats.trunc + o.jstats.flip == 0 {
             let origs: Vec<u8> = o.top_order.iter().copied().filter(|x| x & 0x80 == 0).collect();
             let unknowns = o.top_order.iter().filter(|x| **x & 0x80 != 0).count();
             let mut mask = 0u8;
@@ -278,8 +361,8 @@ impl Agg {
                 }
             }
         }
-        if nf == 0 && plan.patch.is_none() && o.evaluated[assert_index("A1")] > 0 && o.failure.is_none() && o.read_ok == Some(true) {
-            self.probes[P_TYPE + ti] += 1;
+        if nf == 0 && !has_patch && o.evaluated[assert_index("A1")] > 0 && o.failure.is_none() && o.read_ok == Some(true) {
+            self.probes[P_TYPE + ti + if is_json { n_types } else { 0 }] += 1;
         }
         self.sigs.insert(o.sig);
         if o.nontrivial {
@@ -307,6 +390,7 @@ impl Agg {
 pub struct Batch {
     pub reg: Vec<TypeEntry>,
     pub sweep: Vec<Plan>,
+    pub jsweep: Vec<JPlan>,
     pub seed: u64,
 }
 
@@ -314,14 +398,51 @@ impl Batch {
     pub fn new(seed: u64) -> Batch {
         let reg = registry();
         let sweep = sweep_plans(&reg);
-        Batch { reg, sweep, seed }
+        let jsweep = sweep_jplans(&reg);
+        Batch { reg, sweep, jsweep, seed }
     }
 
-    pub fn plan_for(&self, run: u64) -> Plan {
-        if (run as usize) < self.sweep.len() {
-            self.sweep[run as usize].clone()
+    pub fn sweep_len(&self) -> u64 {
+        (self.sweep.len() + self.jsweep.len()) as u64
+    }
+
+    /// Run index -> plan. Sweeps first (event lane, then byte lane), then the seeded lanes:
+    /// one run in four goes to the byte lane (it costs about ten times as much).
+    pub fn plan_for(&self, run: u64) -> AnyPlan {
+        let r = run as usize;
+        if r < self.sweep.len() {
+            AnyPlan::Event(self.sweep[r].clone())
+        } else if r < self.sweep.len() + self.jsweep.len() {
+            AnyPlan::Json(self.jsweep[r - self.sweep.len()].clone())
+        } else if run % 4 == 3 {
+            AnyPlan::Json(random_jplan(&self.reg, self.seed, run))
         } else {
-            random_plan(&self.reg, self.seed, run)
+            AnyPlan::Event(random_plan(&self.reg, self.seed, run))
+        }
+    }
+
+    pub fn run_any(&self, plan: &AnyPlan, opts: RunOpts) -> Option<(usize, Outcome)> {
+        let ti = self.type_index(plan.ty())?;
+        let e = &self.reg[ti];
+        Some((
+            ti,
+            match plan {
+                AnyPlan::Event(p) => (e.run)(p, opts),
+                AnyPlan::Json(p) => (e.run_json)(p, opts),
+            },
+        ))
+    }
+
+    pub fn shrink_any(&self, plan: &AnyPlan, assert_id: &str) -> (AnyPlan, u32) {
+        match plan {
+            AnyPlan::Event(p) => {
+                let (q, n) = shrink(p, assert_id, &self.reg);
+                (AnyPlan::Event(q), n)
+            }
+            AnyPlan::Json(p) => {
+                let (q, n) = shrink_j(p, assert_id, &self.reg);
+                (AnyPlan::Json(q), n)
+            }
         }
     }
 
@@ -347,13 +468,11 @@ impl Batch {
                             let b = (a + CHUNK).min(to);
                             for run in a..b {
                                 let plan = self.plan_for(run);
-                                let ti = match self.type_index(&plan.ty) {
-                                    Some(t) => t,
+                                let (ti, o) = match self.run_any(&plan, RunOpts::default()) {
+                                    Some(x) => x,
                                     None => continue,
                                 };
-                                let e = &self.reg[ti];
-                                let o = (e.run)(&plan, RunOpts::default());
-                                agg.record(run, e, ti, &plan, &o);
+                                agg.record(run, &self.reg[ti], ti, self.reg.len(), &plan, &o);
                             }
                         }
                         agg
@@ -389,14 +508,14 @@ fn threads_from(args: &[String]) -> usize {
         .unwrap_or_else(|| std::thread::available_parallelism().map(|n| n.get()).unwrap_or(4))
 }
 
-fn trace_json(b: &Batch, plan: &Plan) -> Value {
-    let e = match b.reg.iter().find(|e| e.name == plan.ty) {
-        Some(e) => e,
+fn trace_json(b: &Batch, plan: &AnyPlan) -> Value {
+    let o = match b.run_any(plan, RunOpts { trace: true }) {
+        Some((_, o)) => o,
         None => return json!({"error": "unknown type"}),
     };
-    let o = (e.run)(plan, RunOpts { trace: true });
     let d = o.detail.clone().unwrap_or_default();
     json!({
+        "lane": plan.lane(),
         "value": d.value,
         "medium_holds": d.stored,
         "serialize_returned": d.write_result,
@@ -454,8 +573,8 @@ pub fn cmd_batch(args: &[String]) -> i32 {
 
     println!("VERIF_SEED={} tier={} threads={}", seed, tier, threads);
     let b = Batch::new(seed);
-    let total = b.sweep.len() as u64 + random_runs;
-    println!("sweep_runs={} random_runs={} types={}", b.sweep.len(), random_runs, b.reg.len());
+    let total = b.sweep_len() + random_runs;
+    println!("sweep_runs={} (event {} + bytes {}) random_runs={} types={}", b.sweep_len(), b.sweep.len(), b.jsweep.len(), random_runs, b.reg.len());
     let agg = b.run_range(0, total, threads, false);
     let wall_runs = t0.elapsed().as_secs_f64();
 
@@ -477,18 +596,17 @@ pub fn cmd_batch(args: &[String]) -> i32 {
     if exit_code == 0 {
         let _ = std::fs::create_dir_all(&replay_dir);
         for (id, rec) in &agg.failures {
-            if let Some(k) = known.iter().find(|k| k.property == PROPERTY && k.assert_id == *id && k.ty == rec.plan.ty) {
-                known_lines.push(format!("KNOWN-FINDING: property={} {} [{} on {}]", PROPERTY, k.what, id, rec.plan.ty));
+            if let Some(k) = known.iter().find(|k| k.property == PROPERTY && k.assert_id == *id && k.ty == rec.plan.ty()) {
+                known_lines.push(format!("KNOWN-FINDING: property={} {} [{} on {}]", PROPERTY, k.what, id, rec.plan.ty()));
                 continue;
             }
-            let (small, steps) = shrink(&rec.plan, id, &b.reg);
-            let e = b.reg.iter().find(|e| e.name == small.ty).unwrap();
-            let o = (e.run)(&small, RunOpts::default());
+            let (small, steps) = b.shrink_any(&rec.plan, id);
+            let o = b.run_any(&small, RunOpts::default()).map(|x| x.1).unwrap_or_default();
             let f = o.failure.clone().unwrap_or_else(|| rec.failure.clone());
             let path = format!("{}/C20-{}-{}-{}.json", replay_dir, seed, rec.run, id);
             let doc = json!({
                 "property": PROPERTY,
-                "lane": "event",
+                "lane": small.lane(),
                 "seed": seed,
                 "run": rec.run,
                 "assert_id": f.assert_id,
@@ -513,7 +631,7 @@ pub fn cmd_batch(args: &[String]) -> i32 {
                     violations += 1;
                     violation_lines.push(format!(
                         "VIOLATION property={} replay={}  [{} on {} (run {}): {}]",
-                        PROPERTY, path, f.assert_id, small.ty, rec.run, f.observed
+                        PROPERTY, path, f.assert_id, small.ty(), rec.run, f.observed
                     ));
                 }
                 other => {
@@ -560,10 +678,11 @@ pub fn cmd_batch(args: &[String]) -> i32 {
     }
     // plus one random-lane run so that the generator's output is visible
     {
-        let run = b.sweep.len() as u64 + 7;
-        if run < total {
-            let plan = b.plan_for(run);
-            samples.push(json!({"run": run, "first_run_evaluating": "(random lane example)", "plan": plan, "trace": trace_json(&b, &plan)}));
+        for run in [b.sweep_len() + 8, b.sweep_len() + 7] {
+            if run < total {
+                let plan = b.plan_for(run);
+                samples.push(json!({"run": run, "first_run_evaluating": "(seeded lane example)", "plan": plan, "trace": trace_json(&b, &plan)}));
+            }
         }
     }
 
@@ -586,7 +705,12 @@ pub fn cmd_batch(args: &[String]) -> i32 {
             "distinct_schedules": agg.sigs.len(),
             "rule": "One evaluation = one simulated run: a value of one cgmath type is serialized through SimStore (every Serializer call is a write step that the fault plan may fail) and the stored record is deserialized through SimSource (every next_key/next_value/next_element/leaf is a read step; the plan decides delivery order, omissions, injected unknown entries, duplicates and failing steps). Runs 0..sweep_runs are a deterministic enumeration (every single write-fault and read-error position for every type x framing x newtype mode; every ordered arrangement of every subset of Decomposed's three fields, with and without an unknown entry at every position, for every key form); the rest are drawn from xoshiro256** seeded by (VERIF_SEED, run index). Two runs are the same schedule when (type, medium configuration, fired write faults with step and kind, serialize Ok/Err, delivered entry order of every record opened during the read including injected entries by key and value kind, fired read errors with step, patched-or-not) coincide; leaf values do not count. distinct_nontrivial counts distinct schedules in which at least one fault fired or one record was delivered in a non-identity order.",
             "exhaustive": false,
-            "sweep_runs": b.sweep.len(),
+            "sweep_runs": b.sweep_len(),
+            "sweep_runs_event_lane": b.sweep.len(),
+            "sweep_runs_byte_lane": b.jsweep.len(),
+            "runs_event_lane": agg.lane_runs[0],
+            "runs_byte_lane": agg.lane_runs[1],
+            "byte_lane_runs_where_serde_json_itself_does_not_round_trip_a_std_float": agg.format_lossy,
             "random_runs": random_runs,
             "runs_per_second": agg.runs as f64 / wall_runs.max(1e-9),
             "seeds_per_hour": (agg.runs as f64 / wall_runs.max(1e-9) * 3600.0) as u64,
@@ -655,7 +779,7 @@ pub fn cmd_replay(args: &[String]) -> i32 {
             return 2;
         }
     };
-    let plan: Plan = match serde_json::from_value(doc["plan"].clone()) {
+    let plan: AnyPlan = match serde_json::from_value(doc["plan"].clone()) {
         Ok(p) => p,
         Err(e) => {
             println!("HARNESS-ERROR bad plan in {}: {}", path, e);
@@ -665,14 +789,13 @@ pub fn cmd_replay(args: &[String]) -> i32 {
     let want_id = doc["assert_id"].as_str().unwrap_or("");
     let want_obs = doc["observed"].as_str().unwrap_or("");
     let b = Batch::new(0);
-    let e = match b.reg.iter().find(|e| e.name == plan.ty) {
-        Some(e) => e,
+    let o = match b.run_any(&plan, RunOpts::default()) {
+        Some((_, o)) => o,
         None => {
-            println!("HARNESS-ERROR unknown type {}", plan.ty);
+            println!("HARNESS-ERROR unknown type {}", plan.ty());
             return 2;
         }
     };
-    let o = (e.run)(&plan, RunOpts::default());
     println!("{}", serde_json::to_string_pretty(&trace_json(&b, &plan)).unwrap());
     if let Some(h) = o.harness_error {
         println!("HARNESS-ERROR {}", h);
@@ -715,7 +838,7 @@ pub fn cmd_hashes(args: &[String]) -> i32 {
     let threads = threads_from(args);
     let runs: u64 = arg_val(args, "--runs").and_then(|s| s.parse().ok()).unwrap_or(20_000);
     let b = Batch::new(seed);
-    let from: u64 = arg_val(args, "--from").and_then(|s| s.parse().ok()).unwrap_or(b.sweep.len() as u64);
+    let from: u64 = arg_val(args, "--from").and_then(|s| s.parse().ok()).unwrap_or(b.sweep_len());
     let agg = b.run_range(from, from + runs, threads, true);
     let mut hs = agg.hashes.unwrap_or_default();
     hs.sort();
@@ -747,6 +870,6 @@ pub fn cmd_list() -> i32 {
         let p = &e.probes[0];
         println!("{:50} leaves={:2} wsteps={:3} rsteps={:3} records={}", e.name, e.leaf_kinds.len(), p.wsteps, p.rsteps, p.records.len());
     }
-    println!("sweep plans: {}", b.sweep.len());
+    println!("sweep plans: event {} + bytes {}", b.sweep.len(), b.jsweep.len());
     0
 }
